@@ -234,6 +234,9 @@ var atomClass = [][3]string{
 // atomFnStep: refusing step of an entry point from the callee that produced the error (innermost application frame of
 // the error's stack trace), for failures whose text no row above knows. Independent of the wording of the error.
 var atomFnStep = map[string]map[string]string{
+	// delegateTo: the callees that stand after its first write (UpdateStakerAssetState) by their names in Model/Atomic.lean
+	"delegation.delegate": atomDelegateFnStep,
+	"keeper.DelegateTo":   atomDelegateFnStep,
 	"delegation.undelegate": {
 		"ValidateUndelegationAmount": "ValidateUndelegationAmount", "GetSingleDelegationInfo": "ValidateUndelegationAmount",
 		"SharesFromTokens": "ValidateUndelegationAmount", "RemoveShareFromOperator": "share.GT(TotalShare)", "TokensFromShares": "TokensFromShares",
@@ -242,6 +245,12 @@ var atomFnStep = map[string]map[string]string{
 		"DeleteStakerForOperator": "DeleteStakerForOperator", "SetUndelegationRecords": "SetUndelegationRecords",
 		"IncrementUndelegationHoldCount": "IncrementUndelegationHoldCount", "AfterUndelegationStarted": "IncrementUndelegationHoldCount",
 	},
+}
+
+var atomDelegateFnStep = map[string]string{
+	"UpdateStakerAssetState": "UpdateAssetValue(WithdrawableAmount)", "CalculateShare": "CalculateShare", "GetAssociatedOperator": "GetAssociatedOperator",
+	"UpdateOperatorAssetState": "UpdateAssetValue(operator.TotalAmount)", "UpdateDelegationState": "UpdateDelegationState",
+	"AppendStakerForOperator": "AppendStakerForOperator", "DelegateCoinsFromAccountToModule": "DelegateCoinsFromAccountToModule",
 }
 
 func atomClassify(entry, errText string) string {
@@ -262,7 +271,7 @@ func atomClassify(entry, errText string) string {
 // error, else — for a precompile's `false` — by the callee at the top of the error's stack trace.
 func (h *atomH) failStep(entry, class, errText string) string {
 	step := atomClassify(entry, errText)
-	if step == "" && class == "false" {
+	if step == "" && (class == "false" || class == "krej") {
 		if st, ok := atomFnStep[entry][h.lastErrFn]; ok {
 			step = st
 			h.env.Note("classified-by-stack:" + entry + ":" + h.lastErrFn)
@@ -321,8 +330,8 @@ func (h *atomH) report(entry, class, errText string, before Snapshot, desc strin
 		if !h.seen[sig] {
 			h.seen[sig] = true
 			hh := h.hist
-			if len(hh) > 60 {
-				hh = hh[len(hh)-60:]
+			if len(hh) > 60 { // the boot / scenario lines and the tail
+				hh = append(append([]string{}, hh[:3]...), hh[len(hh)-57:]...)
 			}
 			env.Violate("C09.fail-leaves-no-trace", sig,
 				fmt.Sprintf("%s reported failure (%s; %s) but changed %v: %s", entry, class, errText, stores, detail), hh)
